@@ -460,6 +460,18 @@ structure WaExt where
   consumeResult : Str → Bool
   upgradeResult : Str → Nat → Str × Option Err
 
+/-! ### cmd/keymasterd `updateAuthCookieAuthlevel` -/
+
+/-- the one effect: `http.SetCookie` of the auth cookie (name `auth_cookie`, path `/`, HttpOnly, Secure, SameSite=None,
+the old cookie's expiry) with this value -/
+inductive CookieUpEffect
+  | setCookie (value : Str)
+deriving DecidableEq, Repr
+
+/-- external: `updateAuthJWTWithNewAuthLevel` (translated and proved separately: `c04_go_upgrade_accept`) -/
+structure CookieUpExt where
+  upgradeJWT : Str → Str → Nat → Str × Option Err
+
 /-! ### cmd/keymasterd `consumeLoginChallenge` -/
 
 /-- `localUserData`: the pending challenge of a user; the two challenge pointers are compared by identity (numbers
